@@ -74,3 +74,9 @@ Proof.
   { destruct (Z.lt_ge_cases 0 (chan s)) as [L|G]; [|lia]. rewrite (H3 eq_refl L) in Q2. discriminate. }
   rewrite H4 in H1 by lia. lia.
 Qed.
+
+Lemma woken_runs : forall s, cp s = C_parked -> woken s = true -> cp (step C s) = C_poll.
+Proof.
+  intros [n cap sent dropped chan swk woken cp deliv polls wakes pends] Hc Hw; simpl in *; subst.
+  reflexivity.
+Qed.
